@@ -1,6 +1,10 @@
 package props
 
 import (
+	"strings"
+
+	"pgregory.net/rapid"
+
 	"testing"
 
 	"verif/harness/engine"
@@ -44,4 +48,39 @@ func TestC12(t *testing.T) {
 	cfg := lifeCfg()
 	cfg.Fdchk = true
 	engine.CheckE1(t, "C12", cfg, any)
+}
+
+func TestC14(t *testing.T) {
+	cfg := baseCfg()
+	cfg.Bufs = []int{-1, 0, 1, 2, 4, 8, 16, 64, 256, 1024, 4096, 16384, 65536}
+	cfg.Others = 7
+	cfg.PAbsorb = 25
+	cfg.MaxBurst = 12
+	engine.CheckE1(t, "C14", cfg, func(c *engine.Case, w *engine.World) bool {
+		return w.Delivered >= 3 && w.Feat["other-watchers"] >= 1
+	})
+}
+
+func TestC19(t *testing.T) {
+	owned := engine.Owned["C19"]
+	rapid.Check(t, func(rt *rapid.T) {
+		c := engine.GenC19(rt)
+		w := engine.Exec(c)
+		nt := w.R != nil && (w.R.NInnerRename > 0 || w.Feat["recursive-root-removed"] > 0) && w.Delivered >= 2
+		engine.RecordCase("C19", c, w, nt)
+		if w.R != nil {
+			st := engine.StatsFor("C19")
+			st.AddFeat("inner-dir-renames", w.R.NInnerRename)
+			st.AddFeat("dirs-created-while-watched", w.R.NNewDirs)
+		}
+		if rep := engine.Report(c, w, owned); rep != nil {
+			small := engine.Shrink(c, owned, 400)
+			w2 := engine.Exec(small)
+			if rep2 := engine.Report(small, w2, owned); rep2 != nil {
+				c, rep = small, rep2
+			}
+			p := engine.SaveReplay("C19", c)
+			rt.Fatalf("property C19 violated (replay %s)\ncase: %s\n%s", p, c, strings.Join(rep, "\n"))
+		}
+	})
 }
